@@ -192,6 +192,73 @@ func runC16(c C16Case) string {
 		if len(evals) != 2 || model.Diff(sortedDeep(want), sortedDeep(evals[0])) != "" || model.Diff(sortedDeep(want), sortedDeep(evals[1])) != "" {
 			return fmt.Sprintf("an Encoder given the value twice wrote %d values: %s", len(evals), model.SeqString(evals)) + desc()
 		}
+		// (2d) MarshalTo places the value inside a partially written container;
+		// EncodeAs without a hint and NewBinaryEncoderLST are the same mapping
+		{
+			var mbuf bytes.Buffer
+			var w ion.Writer
+			if c.ByPtr {
+				w = ion.NewTextWriter(&mbuf)
+			} else {
+				w = ion.NewBinaryWriter(&mbuf)
+			}
+			err := w.BeginStruct()
+			if err == nil {
+				err = w.FieldName(ion.NewSymbolTokenFromString("k"))
+			}
+			if err == nil {
+				err = ion.MarshalTo(w, arg)
+			}
+			if err == nil {
+				err = w.FieldName(ion.NewSymbolTokenFromString("after"))
+			}
+			if err == nil {
+				err = w.WriteInt(1)
+			}
+			if err == nil {
+				err = w.EndStruct()
+			}
+			if err == nil {
+				err = w.Finish()
+			}
+			if err != nil {
+				return fmt.Sprintf("MarshalTo inside an open struct fails: %v", err) + desc()
+			}
+			var mvals []model.Value
+			var perr error
+			if c.ByPtr {
+				var r *reftext.Result
+				r, perr = reftext.Parse(mbuf.Bytes(), reftext.Options{})
+				if perr == nil {
+					mvals = r.Values
+				}
+			} else {
+				var r *refbin.Result
+				r, perr = refbin.Decode(mbuf.Bytes(), refbin.Options{RequireIVM: true})
+				if perr == nil {
+					mvals = r.Values
+				}
+			}
+			exp := model.StructV(model.Field{Name: model.S("k"), Val: want}, model.Field{Name: model.S("after"), Val: model.Int64V(1)})
+			if perr != nil || len(mvals) != 1 || model.Diff(sortedDeep(exp), sortedDeep(mvals[0])) != "" {
+				return fmt.Sprintf("MarshalTo inside an open struct: the stream is %s (%v), expected {k:<value>,after:1}", model.SeqString(mvals), perr) + desc()
+			}
+			if needed != nil {
+				var lbuf bytes.Buffer
+				le := ion.NewBinaryEncoderLST(&lbuf, ion.NewLocalSymbolTable(nil, needed))
+				err := le.EncodeAs(arg, ion.NoType)
+				if err == nil {
+					err = le.Finish()
+				}
+				if err != nil {
+					return fmt.Sprintf("NewBinaryEncoderLST(...).EncodeAs(v, NoType) fails: %v", err) + desc()
+				}
+				r, perr := refbin.Decode(lbuf.Bytes(), refbin.Options{RequireIVM: true})
+				if perr != nil || len(r.Values) != 1 || model.Diff(sortedDeep(want), sortedDeep(r.Values[0])) != "" {
+					return fmt.Sprintf("NewBinaryEncoderLST(...).EncodeAs(v, NoType) wrote something else (%v)\nbytes: % x", perr, clip(lbuf.Bytes(), 300)) + desc()
+				}
+			}
+		}
 		// (3) Unmarshal of each output into the same type gives an equal value
 		for i, data := range [][]byte{text1, bin, binLST} {
 			format := []string{"text", "binary", "binaryLST"}[i]
